@@ -3,7 +3,11 @@
 (* behaviour of Signer.  One service instance serves a whole history; every line after Reset      *)
 (* carries the id of the request it belongs to (`rid`, requests numbered in call order), and the  *)
 (* lines of overlapping requests interleave as they happened.                                     *)
-(*   Reset      a new service instance and a new chain (fork: the epoch at which it forks)        *)
+(*   Reset      a new service instance and a new chain (fork: the epoch at which it forks; boot:  *)
+(*              the start-up input the driver's spec provider presents to New(): per key listed / *)
+(*              absent / listed with another Go type, the failed lookup, the chain's slots per    *)
+(*              epoch)                                                                            *)
+(*   Start      New() returned: did the service come up                                           *)
 (*   Call       the request (operation, slot / epoch, account kinds in request order, failure mode)*)
 (*   DomainReq  logged by the fake DomainProvider when a call arrives: type name, genesis?, epoch *)
 (*   DomainResp logged by the fake DomainProvider when it lets the call return (the driver holds  *)
@@ -45,6 +49,8 @@ IsEvent(e) == l <= TraceLen /\ Trace[l].ev = e /\ l' = l + 1
 TraceReset ==
     /\ IsEvent("Reset")
     /\ fork' = Trace[l].fork
+    /\ boot' = Trace[l].boot
+    /\ svc' = "new"
     /\ pc' = [r \in Rids |-> "idle"]
     /\ req' = [r \in Rids |-> NoCall]
     /\ domreqs' = [r \in Rids |-> <<>>]
@@ -52,6 +58,11 @@ TraceReset ==
     /\ insign' = [r \in Rids |-> NoSign]
     /\ signed' = [r \in Rids |-> EmptyFn]
     /\ result' = [r \in Rids |-> <<>>]
+
+\* New() returned: a refusal to start needs a start-up input that is not complete
+TraceStart ==
+    /\ IsEvent("Start")
+    /\ Start(Trace[l].ok)
 
 TraceCall ==
     /\ IsEvent("Call")
@@ -139,9 +150,9 @@ TraceReturn ==
                         IF result'[r][i] = Absent
                         THEN t.zero[i]                          \* withheld by the signer: reported as "none"
                         ELSE t.verifies[i] /\ ~t.zero[i]        \* verifies for (key i, message i, own domain)
-             ELSE ReturnErr(r)
+             ELSE ReturnErr(r) \/ Refuse(r)      \* an error: after a failure of the environment, or for cause
 
-TraceNext == TraceReset \/ TraceCall \/ TraceDomainReq \/ TraceDomainResp \/ TraceRecall \/ TraceSign \/ TraceSigned
+TraceNext == TraceReset \/ TraceStart \/ TraceCall \/ TraceDomainReq \/ TraceDomainResp \/ TraceRecall \/ TraceSign \/ TraceSigned
                 \/ TraceReturn \/ TraceStable
 
 TraceSpec == TraceInit /\ [][TraceNext]_tvars
